@@ -30,16 +30,34 @@ def run(facts, rep):
     rep.saw(art)
     rep.saw(red)
     # O1
+    from symex import private_helper, apply_closure
     writes = set()
     rng = set()
-    for p in SymEx(art, havoc_loops=True, max_paths=20000).run():
-        for e in p.calls():
-            n = e.name.split('::')[-1]
-            a = [re.sub(r'&mut _\d+', 'IT', sk(x)) for x in e.args]
-            if n == 'index_mut' and a and a[0].replace('&mut ', '').replace('*', '') == 'arg1.lambda':
-                writes.add(a[1])
-            if n == 'into_iter' and a and a[0].startswith('Range::Range'):
-                rng.add(a[0])
+
+    def norm(x):
+        x = re.sub(r'&mut _\d+', 'IT', sk(x))
+        return x
+
+    def scan(paths, closure_item=None):
+        for p in paths:
+            for e in p.calls():
+                n = e.name.split('::')[-1]
+                a = [norm(x) for x in e.args]
+                if n == 'index_mut' and a and re.sub(r'\^(_ref__)?self\.', '', a[0].replace('&mut ', '').replace('*', '')).endswith('arg1.lambda') or \
+                        (n == 'index_mut' and a and a[0].replace('&mut ', '').replace('*', '') == 'arg1.lambda'):
+                    w = a[1]
+                    if closure_item is not None:
+                        w = w.replace(closure_item, 'next(IT).Some.0')
+                    writes.add(w)
+                if n == 'into_iter' and a and a[0].startswith('Range::Range'):
+                    rng.add(a[0])
+                if n == 'for_each' and len(e.args) == 2 and a[0].startswith('Range::Range'):
+                    # (0..i).for_each(|j| ..): the closure body is the loop body, its parameter the loop variable
+                    rng.add(a[0])
+                    ps = apply_closure(e.args[1], [('loopitem',)], havoc_loops=True)
+                    if ps:
+                        scan(ps, closure_item="('loopitem',)")
+    scan(SymEx(art, havoc_loops=True, max_paths=20000, inline=private_helper(exclude=('add_row_to', 'reduce', 'swap', 'mul_row'))).run())
     inst = 'LLLData::add_row_to|writes lambda[k, j] exactly for j <= i'
     if writes == {'(arg3, arg2)', '(arg3, next(IT).Some.0)'} and rng == {'Range::Range{start: 0, end: arg2}'}:
         rep.ok('E25.O1-write-set', inst, 'lambda[k,i]; lambda[k,j] for j in 0..i')
